@@ -35,7 +35,7 @@ import (
 
 // A statement of a contract body.
 type pStmt struct {
-	K      string `json:"k"`             // sstore sload log call dcall scall ccall create create2 selfdestruct revert invalid stop ret
+	K      string `json:"k"`             // sstore sload log call dcall scall ccall create create2 selfdestruct revert invalid stop ret pre retpre
 	A      int    `json:"a,omitempty"`   // key / target index / topic / beneficiary
 	V      int    `json:"v,omitempty"`   // value (word, or unibi for call/create)
 	Gas    int    `json:"gas,omitempty"` // call: 0 = all gas, else explicit limit
@@ -50,6 +50,7 @@ type pCase struct {
 	Value    int       `json:"value"`  // unibi
 	AL       [][]int   `json:"al"`     // access list: [target, keys…]
 	Nonce    uint64    `json:"nonce"`  // sender nonce
+	Pre      []int     `json:"pre,omitempty"` // [address 1..9, input variant]: the message goes straight to a standard precompile
 }
 
 const nTargets = 6 // call targets: 0..2 contracts, 3 sender EOA, 4 empty address, 5 funded EOA
@@ -63,6 +64,21 @@ func (a *asm) pushAddr(x gethcommon.Address) *asm {
 	a.b = append(a.b, x.Bytes()...)
 	return a
 }
+func (a *asm) push2(v int) *asm { return a.op(0x61, byte(v>>8), byte(v)) }
+
+// callPrecompile: input written to memory 0.., CALL(all gas, addr, 0, 0, len(in), out, 64), result dropped
+func (a *asm) callPrecompile(addr int, in []byte, out int) *asm {
+	for off := 0; off < len(in); off += 32 {
+		chunk := make([]byte, 32)
+		copy(chunk, in[off:])
+		a.b = append(a.b, 0x7f)
+		a.b = append(a.b, chunk...)
+		a.push2(off).op(0x52) // MSTORE
+	}
+	a.push1(64).push2(out).push2(len(in)).push1(0).push1(0).push1(addr).op(0x5a, 0xf1, 0x50)
+	return a
+}
+
 func (a *asm) pushBig(v *big.Int) *asm {
 	bz := v.Bytes()
 	if len(bz) == 0 {
@@ -90,8 +106,14 @@ func tinyInit(revert bool, v int) []byte {
 
 func compile(body []pStmt, targets []gethcommon.Address) []byte {
 	a := &asm{}
+	npre := 0
 	for _, s := range body {
 		switch s.K {
+		case "pre": // standard precompile 1..9; the i-th output of a body lands at 0x400 + 64*(i mod 4)
+			a.callPrecompile((s.A-1)%9+1, preInput((s.A-1)%9+1, s.V), 0x400+64*(npre%4))
+			npre++
+		case "retpre":
+			a.push2(256).push2(0x400).op(0xf3)
 		case "sstore":
 			a.push1(s.V).push1(s.A % nKeys).op(0x55)
 		case "sload":
@@ -230,7 +252,11 @@ func (w *pWorld) genesis(db vm.StateDB, c pCase) {
 func (w *pWorld) message(c pCase) gethcore.Message {
 	var to *gethcommon.Address
 	var data []byte
-	if c.To >= 0 {
+	if len(c.Pre) == 2 {
+		t := gethcommon.BytesToAddress([]byte{byte((c.Pre[0]-1)%9 + 1)})
+		to = &t
+		data = preInput((c.Pre[0]-1)%9+1, c.Pre[1])
+	} else if c.To >= 0 {
 		t := w.targets[c.To%3]
 		to = &t
 	} else {
@@ -347,6 +373,8 @@ type pResult struct {
 	Quot    uint64 `json:"quot"`     // params.RefundQuotientEIP3529 as linked
 	Refund  uint64 `json:"refund"`   // refund counter after execution (Nibiru)
 	UsedPre int64  `json:"used_pre"` // intrinsic + top-frame gas before the refund (Nibiru), -1 unknown
+	// a message straight to MODEXP (0x05): intrinsic gas, operand lengths, bit length of the exponent head
+	Modexp []int64 `json:"modexp,omitempty"`
 }
 
 func runProgram(deps *evmtest.TestDeps, u universe, c pCase) pResult {
@@ -354,6 +382,14 @@ func runProgram(deps *evmtest.TestDeps, u universe, c pCase) pResult {
 	res := pResult{Quot: gethparams.RefundQuotientEIP3529, UsedPre: -1}
 	msg := w.message(c)
 	intrinsic, _ := core.IntrinsicGas(msg.Data(), msg.AccessList(), msg.To() == nil, true, true)
+	if len(c.Pre) == 2 && (c.Pre[0]-1)%9+1 == 5 {
+		v := c.Pre[1]
+		if v < 0 {
+			v = -v
+		}
+		bl, el, ml, _ := modexpOperands(v)
+		res.Modexp = []int64{int64(intrinsic), int64(bl), int64(el), int64(ml), int64(modexpHeadBits(v))}
+	}
 
 	// --- Nibiru
 	txCfg := statedb.NewEmptyTxConfig(gethcommon.BytesToHash(deps.Ctx.HeaderHash()))
@@ -483,7 +519,17 @@ func genBody(r *Rng, self int, depthBudget int) []pStmt {
 	n := r.Range(1, 6)
 	var b []pStmt
 	for i := 0; i < n; i++ {
-		switch r.Pick(6, 2, 2, 5, 1, 1, 1, 2, 1, 1, 1, 1, 1) {
+		switch r.Pick(6, 2, 2, 5, 1, 1, 1, 2, 1, 1, 1, 1, 1, 4) {
+		case 13: // a standard precompile; MODEXP (the one whose price changed between forks) more often
+			addr := r.Range(1, 9)
+			if r.Chance(1, 3) {
+				addr = 5
+			}
+			b = append(b, pStmt{K: "pre", A: addr, V: r.Intn(60)})
+			if r.Chance(1, 2) {
+				b = append(b, pStmt{K: "retpre"})
+				return b
+			}
 		case 0:
 			b = append(b, pStmt{K: "sstore", A: r.Intn(nKeys), V: r.Pick(4, 2, 1)})
 		case 1:
@@ -538,6 +584,15 @@ func genProgram(r *Rng) pCase {
 	}
 	c.GasLimit = []uint64{30_000, 60_000, 100_000, 300_000, 1_000_000}[r.Pick(1, 2, 3, 3, 2)]
 	c.Value = r.Pick(4, 1, 1)
+	if r.Chance(1, 7) { // the message goes straight to a standard precompile
+		addr := r.Range(1, 9)
+		if r.Chance(1, 2) {
+			addr = 5
+		}
+		c.Pre = []int{addr, r.Intn(60)}
+		c.To, c.Value = 0, 0
+		c.GasLimit = []uint64{30_000, 60_000, 100_000, 300_000}[r.Pick(1, 2, 3, 3)]
+	}
 	for i := r.Range(0, 2); i > 0; i-- {
 		el := []int{r.Intn(nTargets)}
 		for j := r.Range(0, 2); j > 0; j-- {
@@ -562,6 +617,14 @@ func progOpeners() []pCase {
 		// creation tx whose init code creates and stores
 		{Bodies: [][]pStmt{{{K: "sstore", A: 0, V: 1}, {K: "create", V: 1}, {K: "create2", A: 1, V: 2, Revert: true}, {K: "log", A: 3}}},
 			To: -1, GasLimit: 1_000_000, Value: 2, AL: [][]int{{0, 1}}},
+		// the standard precompiles from a contract: every address once, MODEXP with 32-byte operands, output returned
+		{Bodies: [][]pStmt{{{K: "pre", A: 1, V: 0}, {K: "pre", A: 2, V: 2}, {K: "pre", A: 3, V: 3}, {K: "pre", A: 4, V: 2}, {K: "pre", A: 5, V: 1}, {K: "retpre"}}},
+			To: 0, GasLimit: 300_000},
+		{Bodies: [][]pStmt{{{K: "pre", A: 6, V: 0}, {K: "pre", A: 7, V: 0}, {K: "pre", A: 8, V: 1}, {K: "pre", A: 9, V: 2}, {K: "sstore", A: 0, V: 1}, {K: "retpre"}}},
+			To: 0, GasLimit: 1_000_000},
+		// straight to MODEXP: 32-byte operands; 64-byte base and modulus
+		{Bodies: [][]pStmt{{{K: "stop"}}}, To: 0, GasLimit: 100_000, Pre: []int{5, 1}},
+		{Bodies: [][]pStmt{{{K: "stop"}}}, To: 0, GasLimit: 100_000, Pre: []int{5, 3}},
 	}
 }
 
